@@ -242,6 +242,7 @@ def units(tier):
     U += bfs_units(tier)
     U += ctor_units()
     U += empty_ctor_units()
+    U += vertex_walk_units(tier)
     return U
 
 
@@ -561,6 +562,43 @@ __CPROVER_assigns(g_sizes, g_pos_inf, g_setup_calls, g_mask_calls, g_mask_late)
         U.append(Unit(f"{nm}.empty_complex", "C13", [fn], enforce="ctor_empty", globals_=G, inputs=["in_s"], replay=replay_by_native_search,
                       harness="int main(void) {\n  vp_vec_u in_s; in_s.n = nondet_size(); for (int k = 0; k < DMAX; k++) in_s.a[k] = nondet_uint(); g_setup_calls = 0; g_mask_calls = 0; g_mask_late = 0;\n  ctor_empty(in_s);\n  __CPROVER_assert(0, \"VP_REACH\");\n  return 0;\n}\n",
                       desc=f"{cls} constructor from sizes{' and periodic directions' if nm.endswith('2') else ''} (empty complex to be filled by hand): " + ("the periodic mask is stored before " if per else "") + "set_up_containers gets the sizes unchanged and +infinity as the starting value of every cell"))
+    return U
+
+def vertex_walk_units(tier):
+    """for_each_vertex_rec (base class): the walk that writes the input vertex values visits exactly the vertices of the
+    grid, each once, in increasing bitmap position (the order in which the input vector is read)."""
+    U = []
+    shapes = [(3, 2), (1, 2, 1)] + ([(2, 3), (2, 1, 3), (1, 1, 1, 1)] if tier == "thorough" else [])
+    for shape in shapes:
+        ncell = 1
+        nvert = 1
+        for sd in shape:
+            ncell *= 2 * sd + 1
+            nvert *= sd + 1
+        defs = shape_defs(shape, None) + [f"NCELL={ncell}", f"NVERT={nvert}"]
+        F = fns(False)
+        G = GHOST + """
+size_t g_seq[NVERT + 1]; unsigned g_nvis;
+static void visit_stub(size_t cell) { if (g_nvis < NVERT + 1) g_seq[g_nvis] = cell; g_nvis++; }
+static bool P_walk(void) { bool ok = g_nvis == NVERT; size_t expect = 0; unsigned k = 0;
+  for (size_t c = 0; c < NCELL; c++) if (c < X_SIZE && x_dim(c) == 0) { if (k < NVERT) ok = ok && g_seq[k] == c; k++; }
+  return ok && k == NVERT; }
+"""
+        f_rec = Fn(B, rf"void {CLS_B}<T>::for_each_vertex_rec\(F&&f, std::size_t base, int dim\)", "for_each_vertex_rec", "",
+                   scopes=[CLS_B], sig_subs=SIG_SUBS + [(r"F&&f, ", ""), (r"template <class F>", "", 0)],
+                   subs=vec_subs([(r"for_each_vertex_rec\(f, ", "for_each_vertex_rec("), (r"\bf\(", "visit_stub(")]),
+                   canary=(r"sizes\.a\[dim\] \+ 1", "sizes.a[0] + 1"))
+        f_top = Fn(B, r"template <class F> void for_each_vertex\(F&&f\)", "for_each_vertex", """
+__CPROVER_requires(shape_ok() && g_nvis == 0)
+__CPROVER_ensures(P_walk())
+__CPROVER_assigns(g_seq, g_nvis)
+""", sig_subs=[(r"template <class F>", "", 0), (r"\(F&&f\)", "(void)")], subs=vec_subs([(r"for_each_vertex_rec\(f, ", "for_each_vertex_rec(")]))
+        nm = "base." + shape_name(shape, None)
+        harness = HARNESS_SETUP + "int main(void) {\n  setup();\n  g_nvis = 0;\n  for_each_vertex();\n  __CPROVER_assert(0, \"VP_REACH\");\n  return 0;\n}\n"
+        U.append(Unit(f"{nm}.for_each_vertex", "C13", [F["set_up_containers"], f_rec, f_top], enforce="for_each_vertex", canary_fn="for_each_vertex_rec", includes=["c13_glue.h"], defines=defs, route="B",
+                      bound=f"grid shape {shape}", unwind=ncell + 2, globals_=G, object_bits=10, inputs=[], harness=harness, replay=replay_by_native_search,
+                      extra_cbmc=["--unwind-min", "0"] if False else [],
+                      desc=f"for_each_vertex (with the real recursive for_each_vertex_rec) on shape {shape_name(shape, None)}: visits every vertex of the grid exactly once, in increasing bitmap position"))
     return U
 
 def bfs_units(tier):
